@@ -1,9 +1,9 @@
 package main
 
 import (
-	"go/token"
 	"fmt"
 	"go/ast"
+	"go/token"
 	"go/types"
 	"sort"
 	"strings"
@@ -24,7 +24,7 @@ func runC10(c *Ctx) {
 	c.Rule("C10-R1", "node-kind exhaustiveness of every type switch over the node interface", func() {
 		nodeT := c.Type("trie:node")
 		frozen := map[string]string{
-			"(*trie.Trie).tryGet/0":            "",
+			"(*trie.Trie).tryGet/0": "",
 		}
 		_ = frozen
 		n := 0
@@ -530,9 +530,9 @@ func runC10(c *Ctx) {
 var c10SwitchExceptions = map[string]string{}
 
 var c10StoreExceptions = map[string]string{
-	"(*trie.hasher).hash|shortNode.flags":    "writes the flags of the cached copy returned by hashChildren (a fresh copy)",
-	"(*trie.hasher).hash|fullNode.flags":     "writes the flags of the cached copy returned by hashChildren (a fresh copy)",
-	"(*trie.Trie).tryGet|shortNode.Val":      "content-preserving resolution of a hash child on a copy made in tryGet",
+	"(*trie.hasher).hash|shortNode.flags":     "writes the flags of the cached copy returned by hashChildren (a fresh copy)",
+	"(*trie.hasher).hash|fullNode.flags":      "writes the flags of the cached copy returned by hashChildren (a fresh copy)",
+	"(*trie.Trie).tryGet|shortNode.Val":       "content-preserving resolution of a hash child on a copy made in tryGet",
 	"(*trie.Trie).tryGet|fullNode.Children[]": "content-preserving resolution of a hash child on a copy made in tryGet",
 }
 
